@@ -9,7 +9,7 @@ from __future__ import annotations
 
 import random
 
-from simplan import cliworld, procworld
+from simplan import cliworld, gen, procworld
 from simplan.seams import PROBE_PREFIX
 from simplan.tape import Tape, rng_for
 
@@ -19,7 +19,38 @@ FAULT_KINDS = ["open-r", "read", "create", "write", "list", "remove", "stat", "e
 ALLOWED_EXIT_FAULTED = {0, 1, 2, 130}
 
 
+SWEEP_EVENTS = 64
+SWEEP_ORDS = 5  # fault ordinals tried per event (the longest applicable list has 4 errnos + sigint)
+
+
+def gen_sweep_spec(seed: int, q: int, idx: int):
+    """Systematic fault placement: one valid input, process 0 receives exactly the ord-th applicable fault at its
+    ev-th seam event; a fault-free peer on the same input (and an unrelated one) runs concurrently under a
+    seeded policy, so interference from failure paths is covered too."""
+    per = SWEEP_EVENTS * SWEEP_ORDS
+    b, r = divmod(q, per)
+    rng = rng_for(PROP, seed, f"sweep-base-{b}")
+    inp = gen.gen_project(rng, reports="always")
+    inp.update(name="p0", kind="ok")
+    other = gen.gen_project(rng, reports="mixed")
+    other.update(name="p1", kind="ok")
+    spec = {"files": {}, "decoys": {}, "procs": [], "prop": PROP, "idx": idx, "sweep": q}
+    cliworld.place_inputs(rng, [inp, other], spec)
+    spec["procs"].append(cliworld.make_proc(rng, inp, 0))
+    spec["procs"].append(cliworld.make_proc(rng, inp, 1))
+    if b % 2:
+        spec["procs"].append(cliworld.make_proc(rng, other, 2))
+    prng = rng_for(PROP, seed, f"sweep-{q}")
+    spec.update(policy=prng.choice(["seq", "random", "race", "sticky"]), listing="perm", collide=b % 3 == 2, name_salt=b % 4, clock_jumps=False, t0=procworld.T0)
+    kinds = [k for k in FAULT_KINDS if k != "kill"]
+    spec["faults"] = {"kinds": kinds, "p_proc": 1.0, "p_second": 0.0, "horizon": SWEEP_EVENTS}
+    spec["pin"] = {"proc": 0, "ev": 1 + r // SWEEP_ORDS, "ord": r % SWEEP_ORDS}
+    return spec, [inp, other], prng
+
+
 def gen_spec(seed: int, idx: int, tier: str) -> tuple[dict, list[dict], random.Random]:
+    if idx % 4 == 3:
+        return gen_sweep_spec(seed, idx // 4, idx)
     rng = rng_for(PROP, seed, idx)
     big = tier == "thorough"
     r = rng.random()
